@@ -366,7 +366,7 @@ func zzLegacyProxy() {
 	base.Plugin = plugins[zzverif.Choice("plugin", len(plugins))]
 	pp := map[string]string{}
 	for _, k := range []string{"plugin_local_addr", "plugin_host_header_rewrite", "plugin_crt_path", "plugin_key_path", "plugin_http_user", "plugin_http_passwd",
-		"plugin_user", "plugin_passwd", "plugin_local_path", "plugin_strip_prefix", "plugin_unix_path", "plugin_header_X-A", "plugin_header_", "other_key"} {
+		"plugin_user", "plugin_passwd", "plugin_local_path", "plugin_strip_prefix", "plugin_unix_path", "plugin_header_X-A", "plugin_header_api-key", "plugin_header_range", "plugin_header_", "other_key"} {
 		pp[k] = zzverif.String("param."+k, 1)
 	}
 	base.PluginParams = pp
@@ -431,8 +431,12 @@ func zzLegacyProxy() {
 	zzEq(out.Plugin.Type, base.Plugin, L+"Plugin.Type<-Plugin")
 
 	hdr := func(h v1.HeaderOperations) {
-		zzverif.Assert(len(h.Set) == 1, L+"plugin.headers-are-exactly-the-plugin_header_-parameters")
-		zzEq(h.Set["X-A"], pp["plugin_header_X-A"], L+"plugin.header-value")
+		zzverif.Assert(len(h.Set) == 3, L+"plugin.headers-are-exactly-the-plugin_header_-parameters")
+		for _, name := range []string{"X-A", "api-key", "range"} {
+			v, ok := h.Set[name]
+			zzverif.Assert(ok, L+"plugin.header-name-is-what-follows-the-prefix")
+			zzEq(v, pp["plugin_header_"+name], L+"plugin.header-value")
+		}
 	}
 	switch o := out.Plugin.ClientPluginOptions.(type) {
 	case nil:
